@@ -374,6 +374,9 @@ func genHistory(g *gen.Gen, n int) []Req {
 				delete(rm, "action")
 				rm["actions"] = []interface{}{map[string]interface{}{"code": "throw 'bad action'"}, map[string]interface{}{"code": "'second'"}}
 				rm["policies"] = map[string]interface{}{"serialActions": true}
+			case 2:
+				// a result JSON has no rendering for
+				p["rule"].(map[string]interface{})["action"] = map[string]interface{}{"code": []string{"0/0", "1/0", "({n: -1/0})"}[g.Intn(3)]}
 			}
 		case 8:
 			r.URI = "/loc/rules/list"
@@ -507,6 +510,16 @@ func toSys(q Req) (drv.Req, bool) {
 		return drv.Req{Op: "clear", Loc: loc}, true
 	}
 	return drv.Req{}, false
+}
+
+// unrenderableKey: the listed finding c18.unrenderable-result (the event was processed, the System
+// call returns the work, the service cannot render a NaN / Inf result and answers with an error).
+func unrenderableKey(q Req, resp Resp, sysOut string) string {
+	if q.URI == "/loc/events/ingest" && resp.Status != 200 && strings.Contains(resp.Body, "unsupported value") &&
+		(strings.Contains(sysOut, "NaN") || strings.Contains(sysOut, "Inf")) {
+		return "c18.unrenderable-result"
+	}
+	return ""
 }
 
 // sameAsSys compares a service response with the normalised result of the
@@ -646,7 +659,7 @@ func main() {
 				}
 				r.Count("compared_with_direct_system_call", 1)
 				if same, want := sameAsSys(q, results["direct"][i], out); !same {
-					r.Violate("", fmt.Sprintf("%s through the service does not return what the direct System call returns (%s)", q.URI, want), rep.J{"request": q, "service_response": results["direct"][i], "system_result": out, "history": hist[:i+1]})
+					r.Violate(unrenderableKey(q, results["direct"][i], out), fmt.Sprintf("%s through the service does not return what the direct System call returns (%s)", q.URI, want), rep.J{"request": q, "service_response": results["direct"][i], "system_result": out, "history": hist[:i+1]})
 				}
 			} else {
 				// keep the twin in step for operations without a comparison
